@@ -62,8 +62,12 @@ type imgFile struct {
 	atimeIx int
 }
 
+// files found by the last snapshotDir whose names are not of a shape the loader recognises
+var unrecognised []string
+
 func snapshotDir(dir string) []imgFile {
 	var out []imgFile
+	unrecognised = nil
 	for _, ks := range [][2]string{{"cas.v2", "cas/"}, {"ac.v2", "ac/"}, {"raw.v2", "raw/"}} {
 		_ = filepath.Walk(filepath.Join(dir, ks[0]), func(p string, info os.FileInfo, err error) error {
 			if err != nil || info.IsDir() {
@@ -71,6 +75,8 @@ func snapshotDir(dir string) []imgFile {
 			}
 			m := nameRe.FindStringSubmatch(info.Name())
 			if m == nil {
+				rel, _ := filepath.Rel(dir, p)
+				unrecognised = append(unrecognised, rel)
 				return nil
 			}
 			var sz int64
@@ -263,7 +269,12 @@ func driver(seed uint64, n int, outV, outJSON string, _ []string) {
 		// the crash point
 		var image []imgFile
 		var indexedAtCrash disk.VerifSnapshot
-		take := func() { image = snapshotDir(realDir); indexedAtCrash = disk.VerifCacheSnapshot(dc) }
+		var strange []string
+		take := func() {
+			image = snapshotDir(realDir)
+			strange = append([]string{}, unrecognised...)
+			indexedAtCrash = disk.VerifCacheSnapshot(dc)
+		}
 		incomplete := map[string]bool{} // rel path of the file being written at the crash
 		kindOfCrash := r.Intn(5)
 		fetchCorpus := c == 3 // corpus case: zstd mode, killed in the middle of a backend fetch
@@ -471,6 +482,10 @@ func driver(seed uint64, n int, outV, outJSON string, _ []string) {
 			mode2 = map[bool]string{true: "uncompressed", false: "zstd"}[zstdMode]
 		}
 		text = append(text, fmt.Sprintf("RESTART mode=%s max=%d", mode2, max2))
+		if len(strange) > 0 {
+			// C08 "it starts successfully": the loader refuses a directory that holds such a file
+			failed(fmt.Sprintf("C08: at the kill the cache directory holds a file whose name the loader does not recognise (the next start fails): %v", strange))
+		}
 		dc2, err := disk.New(imgDir, max2, quiet, disk.WithStorageMode(mode2))
 		if err != nil {
 			failed("C08: restart on the crash image failed: " + err.Error())
